@@ -308,7 +308,7 @@ func main() {
 	nProg, nVal := 3, 3
 	maxTruncLen, maxCorruptPos := 300, 16
 	if thorough {
-		nProg, nVal = 14, 4
+		nProg, nVal = 20, 5
 		maxTruncLen, maxCorruptPos = 600, 40
 	}
 	st := &stats{Schema: map[string]int{}, CaseKinds: map[string]int{}, ReadKinds: map[string]int{}, ObsFast: map[string]int{},
